@@ -27,6 +27,9 @@ class InterruptableThread(threading.Thread):
         self.daemon = True
         self.result = None
         self.exc_info = (None, None, None)
+        # Threads started under a time limit of their own while this one
+        # was running (e.g., a student file importing another one)
+        self.children = []
 
     def run(self):
         """
@@ -76,6 +79,10 @@ class InterruptableThread(threading.Thread):
 
         """
         self.exc_info = sys.exc_info()
+        # Whatever this thread is waiting for has to end with it, now and
+        # not when its own wait is over
+        for child in list(self.children):
+            child.terminate()
         self.raise_exception(SystemExit)
 
 
@@ -94,6 +101,9 @@ def timeout(duration, func, *args, **kwargs):
         return func(*args, **kwargs)
 
     target_thread = InterruptableThread(func, args, kwargs)
+    parent_thread = threading.current_thread()
+    if isinstance(parent_thread, InterruptableThread):
+        parent_thread.children.append(target_thread)
     target_thread.start()
     given_up = False
     try:
